@@ -97,7 +97,7 @@ def showPath : PathSpec → String
 def showRoute (r : Route) : String :=
   "R[" ++ enc r.name ++ "|" ++ showPath r.match.path ++ "|cs=" ++ boolTok r.match.caseSensitive
     ++ "|H:" ++ joinOrDash (r.match.headers.map showHeader)
-    ++ "|Q:" ++ joinOrDash (sortStrings (r.match.query.map showQuery))
+    ++ "|Q:" ++ joinOrDash (r.match.query.map showQuery)
     ++ "|A:" ++ showAction r.action ++ "]"
 
 def showRoutes (rs : List Route) : String :=
